@@ -15,7 +15,8 @@ N == Len(Rec)
 VARIABLES l, viol, notes, swept
 vars == <<l, viol, notes, swept>>
 
-Known(e) == e.ev \in {"Header", "Encode", "FromRecord", "FreeHeader", "Sweep", "SweepEnd", "Decode", "MsgDecode", "Msg", "ForgedChunk"}
+Known(e) == e.ev \in {"Header", "Encode", "FromRecord", "FreeHeader", "Sweep", "SweepEnd", "Decode", "MsgDecode", "Msg", "ForgedChunk",
+                     "Golden", "GoldenEnd"}
 
 When(cond, name) == IF cond THEN {name} ELSE {}
 
@@ -64,6 +65,15 @@ Falsified(e, sw) ==
         IF e.enc # "ok" THEN {"C12_RoundTrip"} \cup When(e.enc = "panic", "C12_DecodeTotal")
         ELSE When(~(e.dec = "ok" /\ e.eqv /\ e.eqb), "C12_RoundTrip")
         \cup When(e.dec \notin Outcomes, "C12_DecodeTotal")
+    ELSE IF e.ev = "Golden" THEN
+             \* a vector the driver has no fixed value for (or listed twice): the file and the driver disagree
+             When(~e.known \/ e.fam \notin {"rec", "msg"}, "Malformed")
+        \cup When(~C12_WireStable(e.dec, e.reenc, e.same), "C12_WireStable")
+        \cup When(e.fam = "rec" /\ ~C12_TagFixed(e.k, e.head, e.size), "C12_TagFixed")
+        \cup When(e.dec \notin Outcomes, "C12_DecodeTotal")
+    ELSE IF e.ev = "GoldenEnd" THEN
+        \* every fixed value of the driver has its vector in the file
+        When(e.lines = 0 \/ e.missing # 0 \/ e.lines # e.expected, "Malformed")
     ELSE \* ForgedChunk
              When(e.res \notin Outcomes, "C12_DecodeTotal")
         \cup When(~C12_ChunkAddressRecomputed(e.res, e.addr) \/ (e.res = "ok" /\ e.forged), "C12_ChunkAddressRecomputed")
